@@ -535,8 +535,13 @@ def normal_rules(run, db):
     comp = lambda k: Rat(Rn.func('comp%d' % k, [Pn]))
     dotSG = Rat(Rn.func('dot', sorted([An('S'), An('GRAD')], key=lambda a: a.key())))
     want_s = An('s1') - (comp(2) - An('SAG')) / dotSG
-    okp = bool(ffp_calls) and all(len(a) == 2 and domn.rat(a[0]) is not None and domn.rat(a[1]) is not None and domn.rat(a[0]) == comp(0) and domn.rat(a[1]) == comp(1) for a in ffp_calls)
-    oks = bool(s_stores) and all(v_ is not None and v_ == want_s for v_, _ in s_stores)
+    # what is not followed is refused, not reported: only values that WERE followed and differ are findings
+    if not ffp_calls or any(len(a) != 2 or domn.rat(a[0]) is None or domn.rat(a[1]) is None for a in ffp_calls):
+        raise AnalysisError('newton_raphson_solve_s: the point the surface is evaluated at is not followed (%r)' % (ffp_calls[:1],))
+    if not s_stores or any(v_ is None for v_, _ in s_stores):
+        raise AnalysisError('newton_raphson_solve_s: the update of the ray length is not followed')
+    okp = all(domn.rat(a[0]) == comp(0) and domn.rat(a[1]) == comp(1) for a in ffp_calls)
+    oks = all(v_ == want_s for v_, _ in s_stores)
     run.check(okp and oks, 'C19.normal', fn.qual, 'newton step', "s <- s - F/F' with F = Z - sag, F' = S . grad F, P = P1 + s S",
               'Newton-Raphson step changed: the surface is evaluated at %s and the ray length becomes %s (expected (x, y) of P1 + s S and s - (z - sag)/(S . grad F))'
               % ([[domn.rat(x).key() if domn.rat(x) is not None else repr(x) for x in a] for a in ffp_calls[:1]], [v_.key() if v_ is not None else '?' for v_, _ in s_stores[:1]]), fn.loc())
@@ -804,10 +809,56 @@ def rotation_rules(run, db):
     ok = match_all(f.node, ['(V_g, V_b, V_a) = zyx', 'zyx = truenp.radians(zyx)', 'V_c1 = truenp.cos(V_a)', 'V_c2 = truenp.cos(V_b)', 'V_c3 = truenp.cos(V_g)',
                             'V_s1 = truenp.sin(V_a)', 'V_s2 = truenp.sin(V_b)', 'V_s3 = truenp.sin(V_g)']) is not None \
         and any(isinstance(n, ast.If) and ast.unparse(n.test).replace(' ', '') == 'notradians' and len(n.body) == 1 for n in walk_no_nested(f.node))
-    run.check(ok, 'C19.rigid', f.qual, 'angle roles', 'zyx = (about z, about y, about x), converted from degrees once', 'make_rotation_matrix angle unpacking / unit conversion changed', f.loc())
+    if ok:
+        run.ok('C19.rigid', f.qual, 'zyx = (about z, about y, about x), converted from degrees once (the unpacking has the form this rule knows)')
+    elif hasattr(run, 'info'):
+        run.info('C19.rigid: the angle unpacking of make_rotation_matrix has another form; which angle turns about which axis is not decided (orthogonality is)')
+    # a tilt given as angles is converted by make_rotation_matrix, None stays None: decided on what _none_or_rotmat returns
+    from .common import capture_calls
+    from ..core.interp import Domain
     fs = db.func(SF + '_none_or_rotmat')
-    src = ast.unparse(fs.node).replace(' ', '')
-    run.check('R=make_rotation_matrix(R)' in src and 'ifRisNone:' in src.replace('\n', ''), 'C19.rigid', fs.qual, 'tilt list', 'a tilt list/tuple is converted by make_rotation_matrix; None stays None', 'tilt handling changed', fs.loc())
+
+    class Tk(Value):
+        def __init__(self, name):
+            self.name = name
+
+    class TD(Domain):
+        def call_ext(self, dotted, args, kwargs, node):
+            if dotted == 'builtins.isinstance' and args and isinstance(args[0], Tk):
+                names = [getattr(a, 'dotted', getattr(a, 'name', '')) for a in (args[1].items if isinstance(args[1], Tup) else [args[1]])]
+                return Const(any(n.rsplit('.', 1)[-1] in ('tuple', 'list', 'Iterable', 'Sequence') for n in names))
+            if dotted == 'builtins.type' and args and isinstance(args[0], Tk):
+                return Tk('type:tuple')
+            if dotted == 'builtins.type' and args and isinstance(args[0], Const):
+                return Tk('type:' + type(args[0].v).__name__)
+            return None
+
+        def compare(self, op, a, b, node):
+            if isinstance(a, Tk) and a.name.startswith('type:'):
+                names = [getattr(x, 'name', getattr(x, 'dotted', '')) for x in (b.items if isinstance(b, Tup) else [b])]
+                hit = any(str(n).rsplit('.', 1)[-1] == a.name[5:] for n in names)
+                if isinstance(op, (ast.In, ast.Eq, ast.Is)):
+                    return hit
+                if isinstance(op, (ast.NotIn, ast.NotEq, ast.IsNot)):
+                    return not hit
+            return None
+    for label, arg, want in (('None', Const(None), 'none'), ('a tuple of angles', Tk('angles'), 'matrix')):
+        dm_ = TD()
+        itd = Interp(db, dm_)
+        paths, calls = capture_calls(itd, dm_, fs, lambda: {fs.params[0]: arg}, {f.qual}, lambda f_, b_: Tk('ROT'))
+        rets = [p_ for p_ in paths if p_.outcome == 'return']
+        if not rets:
+            raise AnalysisError('_none_or_rotmat(%s): no returning path' % label)
+        for p_ in rets:
+            v = p_.value
+            if want == 'none':
+                okv = isinstance(v, Const) and v.v is None and not calls
+            else:
+                if isinstance(v, Unknown):
+                    raise AnalysisError('_none_or_rotmat(%s): the returned value is not followed' % label)
+                okv = isinstance(v, Tk) and v.name == 'ROT' and len(calls) >= 1 and all(isinstance(list(c_[1].values())[0], Tk) and list(c_[1].values())[0].name == 'angles' for c_ in calls)
+            run.check(okv, 'C19.rigid', fs.qual, 'tilt given as ' + label, 'a tilt given as %s %s' % (label, 'stays None (no rotation)' if want == 'none' else 'is converted by make_rotation_matrix'),
+                      '_none_or_rotmat(%s) returns %r' % (label, getattr(v, 'name', v)), fs.loc())
 
 
 def state_rules(run, db):
@@ -867,7 +918,10 @@ def _newton_state(run, db):
         raise AnalysisError('newton_raphson_solve_s: iteration loop not found')
     carried = loop_carried(loops[0])
     mk_ = [n.targets[0].id for n in fn.node.body if isinstance(n, ast.Assign) and isinstance(n.targets[0], ast.Name) and 'arange(nrays' in ast.unparse(n.value).replace(' ', '')]
-    run.check(len(mk_) == 1 and carried == set(mk_), 'C19.normal', fn.qual, 'iteration state', 'only the index set of unconverged rays is carried between Newton iterations (the step lengths live in sj)',
+    if len(mk_) != 1:
+        # the set of unconverged rays is kept some other way (a boolean array, say): what is carried is not judged here
+        raise AnalysisError('newton_raphson_solve_s: the index set of unconverged rays (arange(nrays)) is not found; the iteration state is not followed')
+    run.check(carried == set(mk_), 'C19.normal', fn.qual, 'iteration state', 'only the index set of unconverged rays is carried between Newton iterations (the step lengths live in sj)',
               'Newton iteration carries %s between iterations, expected only the unconverged-ray index set `mask`' % sorted(carried), fn.loc(loops[0]))
     tests = [n for n in ast.walk(loops[0]) if isinstance(n, ast.Compare) and len(n.ops) == 1 and any(isinstance(x, ast.Name) and x.id == 'eps' for x in ast.walk(n))]
     if not tests:
